@@ -20,6 +20,21 @@ class Lab:
         self.configs = self.trees.configs
         self.default_config = conf.default_path_config or self.configs[0]
         self.usable = [t for t in self.model.templates if self.vocab.usable(t)]
+        # the separator that joins fields in file names (from the live path templates): 'rig' and 'x<sep>rig' are ambiguous there
+        self.fsep = "_"
+        try:
+            pm = self.trees.pms[self.default_config]
+            seps = {}
+            for tpl in pm.templates.values():
+                last = tpl.segs[-1]
+                for a, b, c2 in zip(last, last[1:], last[2:]):
+                    if a[0] == "ph" and b[0] == "lit" and c2[0] == "ph" and len(b[1]) == 1:
+                        seps[b[1]] = seps.get(b[1], 0) + 1
+            if seps:
+                self.fsep = max(seps, key=seps.get)
+        except Exception:
+            pass
+        self.twin = "x%srig" % self.fsep
 
     def new_universe(self, n_leaves=None, junk=False, names=None, ents=None, only_default=None):
         from spil import FindInList, FindInPaths, FindInAll
@@ -28,7 +43,7 @@ class Lab:
         self.names = names or rng.sample(TREE_NAMES, rng.randint(2, 4))
         if names is None and rng.random() < 0.35:
             # a name and the same name behind the file-name separator (x_rig / rig): ambiguous in '_' joined file names
-            self.names = sorted(set(self.names[:2]) | {"rig", "x_rig"})
+            self.names = sorted(set(self.names[:2]) | {"rig", self.twin})
         if names is None and rng.random() < 0.2:
             # an open-level name that is also a legal leaf (extension) value: '.../w/vdb' (file) next to '.../w/vdb/abc' (node 'vdb')
             lits = [v for t in self.model.templates for i, seg in enumerate(self.vocab.info[t.name]) if i == t.nseg - 1
@@ -37,15 +52,15 @@ class Lab:
                 self.names = sorted(set(self.names[:2]) | set(rng.sample(sorted(set(lits)), min(2, len(set(lits))))))
         self.ents = ents if ents is not None else universe.gen_universe(
             rng, self.model, self.vocab, n_leaves=n_leaves or rng.choice([8, 20, 40]), names=self.names)
-        if ents is None and "rig" in self.names and "x_rig" in self.names:
+        if ents is None and "rig" in self.names and self.twin in self.names:
             # twins differing only by rig / x_rig at one open level (a node only lives in the '_' joined file name)
             twins = set()
             for e in self.ents:
                 segs = e.split("/")
                 for i, v in enumerate(segs):
-                    if i >= 2 and v in ("rig", "x_rig"):
+                    if i >= 2 and v in ("rig", self.twin):
                         t2 = segs[:]
-                        t2[i] = "x_rig" if v == "rig" else "rig"
+                        t2[i] = self.twin if v == "rig" else "rig"
                         s2 = "/".join(t2)
                         if self.model.natural(s2) is not None and self.model.natural(s2) is self.model.natural(e):
                             twins.add(s2)
@@ -98,15 +113,16 @@ class Lab:
 
     def search(self, allow_last=False, from_entity=True, **kw):
         rng = self.rng
-        if "rig" in self.names and "x_rig" in self.names and self.full and rng.random() < 0.12:
+        if "rig" in self.names and self.twin in self.names and self.full and rng.random() < 0.2:
             # values where one is the '_'-tail of the other, in a ',' list or as a partial glob, next to '*' fields:
             # in a '_' joined file name the glob of one also hits the other
-            cand = [e for e in self.full if any(v in ("rig", "x_rig") for v in e.split("/")[2:])]
+            cand = [e for e in self.full if any(v in ("rig", self.twin) for v in e.split("/")[2:])]
             if cand:
                 segs = rng.choice(cand).split("/")
-                idx = [i for i, v in enumerate(segs) if i >= 2 and v in ("rig", "x_rig")]
+                idx = [i for i, v in enumerate(segs) if i >= 2 and v in ("rig", self.twin)]
                 i = rng.choice(idx)
-                segs[i] = rng.choice(["rig,x_rig", "x_rig,rig", "r*", "*ig", "rig", "x_*"])
+                tw = self.twin
+                segs[i] = rng.choice(["rig," + tw, tw + ",rig", "r*", "*ig", "rig", tw[:2] + "*", "*" + self.fsep + "*"])
                 for j in range(2, len(segs)):
                     if j != i and rng.random() < 0.6:
                         segs[j] = "*"
